@@ -103,6 +103,70 @@ func (s *c19Subject) eval(k int) string {
 	return fmt.Sprintf("ok: %q %s", out, errRepr(err))
 }
 
+// reusedCollection: the caller keeps one collection object, evaluates, restructures it (emptied and refilled in the
+// opposite order; an entry removed and added again) and evaluates again - same bindings, same result. For
+// templates: the caller's map installed as default variables stays exactly as it was through Evaluate().
+func (s *c19Subject) reusedCollection(k int, want string) *evid.Fail {
+	var res *evid.Fail
+	if g := guard(func() {
+		if s.calc != nil {
+			bs := s.c.Vars[k%len(s.c.Vars)]
+			var fl functions.IFunctionCollection
+			if s.c.FuncLists > 0 {
+				fl = userFunctions(k / len(s.c.Vars) % s.c.FuncLists)
+			}
+			pc := makeVars(bs)
+			run := func(stage string) bool {
+				v, err := s.calc.EvaluateUsingVariablesAndFunctions(pc, fl)
+				if got := "ok: " + resultRepr(v, err); got != want {
+					res = evid.F("differs-on-reused-collection", "expression %q: with one collection object %s the result is %s, with a fresh collection of the same bindings %s", s.c.Text, stage, got, want)
+					return false
+				}
+				return true
+			}
+			if !run("used for the first time") {
+				return
+			}
+			pc.Clear()
+			for i := len(bs) - 1; i >= 0; i-- {
+				pc.Add(variables.NewVariable(bs[i].Name, bs[i].V.toVariant()))
+			}
+			if !run("emptied and refilled in the opposite order") {
+				return
+			}
+			if len(bs) > 1 {
+				pc.Remove(0)
+				pc.Add(variables.NewVariable(bs[len(bs)-1].Name, bs[len(bs)-1].V.toVariant()))
+				run("after its first entry was removed and added again at the end")
+			}
+			return
+		}
+		t2 := mustache.NewMustacheTemplate()
+		if t2.SetTemplate(s.c.Text) != nil {
+			return
+		}
+		m := map[string]string{}
+		for key, v := range s.c.Maps[k] {
+			m[key] = v
+		}
+		t2.SetDefaultVariables(m)
+		for round := 1; round <= 2; round++ {
+			out, err := t2.Evaluate()
+			if got := fmt.Sprintf("ok: %q %s", out, errRepr(err)); got != want {
+				res = evid.F("differs-with-default-map", "template %q: Evaluate() #%d with the caller's map as default variables gives %s, EvaluateWithVariables with the same map %s", s.c.Text, round, got, want)
+				return
+			}
+			if sortedMap(m) != sortedMap(s.c.Maps[k]) {
+				res = evid.F("impure:variables-modified:default-map", "template %q: Evaluate() changed the caller's default map from %s to %s", s.c.Text, sortedMap(s.c.Maps[k]), sortedMap(m))
+				return
+			}
+		}
+	}); g != nil {
+		return g
+	}
+	return res
+}
+
 func (s *c19Subject) snapshot() string {
 	if s.calc != nil {
 		var names []string
@@ -171,6 +235,10 @@ func checkC19(c c19Case) *evid.Fail {
 						res = evid.F("differs-from-fresh-instance:"+c.Kind, "%s %q, evaluation %d with collection %d gives %s, a fresh instance gives %s (order %v)", c.Kind, c.Text, i, k, got, want, c.Order)
 						return
 					}
+				}
+				if f := s.reusedCollection(k, got); f != nil {
+					res = f
+					return
 				}
 			} else if got != first[k] {
 				res = evid.F("not-repeatable:"+c.Kind, "%s %q, evaluation %d with collection %d gives %s, the first evaluation with that collection gave %s (order %v)", c.Kind, c.Text, i, k, got, first[k], c.Order)
